@@ -27,8 +27,8 @@ namespace detail {
 template<typename S>
 constexpr double tail_switch(int n)
 {
-  constexpr double dbl[] = {0, 0, 1.4e-3, 4.9e-3, 1.3e-2, 3.0e-2, 6.1e-2};
-  constexpr double flt[] = {0, 0, 0.22, 0.43, 0.74, 1.17, 1.75};
+  constexpr double dbl[] = {0, 0, 1.4e-3, 4.9e-3, 1.3e-2, 3.0e-2, 6.1e-2, 1.1e-1};
+  constexpr double flt[] = {0, 0, 0.22, 0.43, 0.74, 1.17, 1.75, 2.5};
   return std::is_same_v<S, float> ? flt[n] : dbl[n];
 }
 
